@@ -4,6 +4,7 @@
    Gen/IgnoreGen.v); specification: Model/IgnoreSpec.v (abstract files, render, spec, the domain predicates). *)
 From TL Require Import Lib.Base Lib.GenTypes Gen.IgnoreGen Model.PyStr Model.Ignore Model.IgnoreSpec Model.IgnoreRun
      Actual.IgnoreActual Proofs.IgnoreMain Proofs.IgnoreCor Proofs.IgnoreRules Proofs.IgnorePipes Proofs.IgnoreLines Proofs.IgnoreRegress.
+From TL Require Model.IgnorePat Actual.IgnorePatActual Proofs.IgnorePatFacts.
 
 (* 1. Main theorem.  For every quirk vector whose two remaining deviating flags are off (flags_off: q_splitlines_unicode,
       q_start_rules_from_code; the other five flags - repaired by the fix: commits b7d1dc0, 71ade39, 9b79df3 - may read the source's own
@@ -113,9 +114,9 @@ Print Assumptions C04_judge_evaluates_model.
 (* 8. The pipeline table claimed per linter agrees with the generated list of packages that reference the shared parser. *)
 Theorem C04_pipeline_table_consistent :
   forallb (fun p => smem p linter_packages && negb (smem p shared_parser_users)) (no_inline_support ++ own_line_check_only) = true
-  /\ forallb (fun p => smem p shared_parser_users) ["magic_numbers"; "print_statements"; "nesting"; "srp"; "performance"] = true
+  /\ forallb (fun p => smem p shared_parser_users) ["magic_numbers"; "print_statements"; "nesting"; "srp"; "performance"; "collection_pipeline"; "stateless_class"] = true
   /\ forallb (fun p => uses_shared (pipeline_of p "py") && uses_shared (pipeline_of p "ts") && uses_shared (pipeline_of p "rs"))
-             ["magic_numbers"; "print_statements"; "nesting"; "srp"; "performance"] = true
+             ["magic_numbers"; "print_statements"; "nesting"; "srp"; "performance"; "collection_pipeline"; "stateless_class"] = true
   /\ forallb (fun p => negb (uses_shared (pipeline_of p "py"))) (no_inline_support ++ own_line_check_only) = true.
 Proof. exact pipeline_table_consistent. Qed.
 Print Assumptions C04_pipeline_table_consistent.
@@ -141,6 +142,23 @@ Print Assumptions C04_bare_line_unsupported_repaired.
 Theorem C04_bare_file_unsupported_repaired : repaired w_bare_file 2 "nesting.excessive-depth" true.
 Proof. exact bare_file_unsupported_repaired. Qed.
 Print Assumptions C04_bare_file_unsupported_repaired.
+
+(* 10. Linter-level `ignore:` lists (matcher kinds of Model/IgnorePat.v; which linter uses which comes from Gen.linter_matchers):
+       a `never` linter honours no pattern; the substring test is contained in the two richer matchers; a substring matcher
+       cannot see component boundaries.  (That the matcher models - PurePath.match on top of the fnmatch model - behave like the
+       implementation is validated by the pattern stream, not proved.) *)
+Theorem C04_never_ignores_nothing : forall path pats, IgnorePat.linter_file_ignored IgnorePat.MNever path pats = false.
+Proof. exact IgnorePatFacts.never_ignores_nothing. Qed.
+Print Assumptions C04_never_ignores_nothing.
+
+Theorem C04_sub_below_others : forall path pat, IgnorePat.lmatch IgnorePat.MSub path pat = true -> CollectStr.path_norm path = path ->
+  IgnorePat.lmatch IgnorePat.MPathOrSub path pat = true /\ IgnorePat.lmatch IgnorePat.MFnmOrSub path pat = true.
+Proof. exact IgnorePatFacts.sub_below_others. Qed.
+Print Assumptions C04_sub_below_others.
+
+Theorem C04_sub_ignores_boundaries : forall a pat b, IgnorePat.lmatch IgnorePat.MSub (a ++ pat ++ b) pat = true.
+Proof. exact IgnorePatFacts.sub_ignores_boundaries. Qed.
+Print Assumptions C04_sub_ignores_boundaries.
 
 (* non-vacuity: a file of the domain with all four forms, both styles, a bare directive and spelled-out rule lists, on which the
    specification suppresses some (line, rule) pairs and not others, and on which the FAITHFUL model (the vector claimed for the current
